@@ -83,17 +83,19 @@ Definition obs_ok (o : out) (b : obs) : bool :=
   | _, _ => false
   end.
 
-Fixpoint check_hist (W : oracle) (st : state) (steps : list (op * obs * digest)) : bool :=
+(** [None] as digest: the observed state digest is the same as after the previous operation *)
+Fixpoint check_hist (W : oracle) (st : state) (prev : digest) (steps : list (op * obs * option digest)) : bool :=
   match steps with
   | [] => true
-  | (o, b, d) :: r =>
+  | (o, b, od) :: r =>
+      let d := match od with Some d => d | None => prev end in
       match step W st o with
-      | Ok (st', x) => obs_ok x b && digest_ok st' d && check_hist W st' r
-      | Err _ => (match b with ObsErr => true | _ => false end) && digest_ok st d && check_hist W st r
+      | Ok (st', x) => obs_ok x b && digest_ok st' d && check_hist W st' d r
+      | Err _ => (match b with ObsErr => true | _ => false end) && digest_ok st d && check_hist W st d r
       end
   end.
 
-Inductive case := CHist (steps : list (op * obs * digest)).
+Inductive case := CHist (steps : list (op * obs * option digest)).
 
 Definition check (W : oracle) (c : case) : bool :=
-  match c with CHist steps => check_hist W init steps end.
+  match c with CHist steps => check_hist W init (mkDigest [] [] []) steps end.
